@@ -221,6 +221,9 @@ func CheckPair(c *lib.Case, s *netsim.Sim, ri, rj *netsim.Replica) {
 			applyToClone(c, s, ri, rj, batches, mi, limit, detail)
 		}
 	}
+	// the responder grows while it streams (the real handler releases the tree lock before pulling batches)
+	growingResponder(c, s, ri, rj, mi, mj, jPath, jHeads, class, detail)
+
 	// empty path + empty heads: the whole tree
 	c.Eval(1)
 	batches, err := loadBatches(ri, nil, nil, 1<<30)
@@ -321,4 +324,147 @@ func trimIds(s string) string {
 		}
 	}
 	return strings.Join(f, " ")
+}
+
+// growingResponder: on a clone of the responder, the iterator is created, one batch is pulled, then
+// the clone receives changes it lacked (streamed by a third replica), then the remaining batches are
+// pulled. The stream must still be a consistent cut: everything the responder held at request time
+// that the requester lacks is streamed, every streamed change comes after its parents the requester
+// lacks, and applying the batches in order attaches all of them. Changes that arrived after the
+// request may or may not be included. (Added after seeded change C09-3 - NextBatch streaming changes
+// stored after the iterator was loaded - was missed: all other checks pull the batches atomically.)
+func growingResponder(c *lib.Case, s *netsim.Sim, ri, rj *netsim.Replica, mi, mj map[string]netsim.StoredChange, jPath, jHeads []string, class string,
+	detail func(int, map[string]any) map[string]any) {
+	// a third replica holding changes the responder lacks
+	var rk *netsim.Replica
+	for _, r := range s.Replicas {
+		if !r.HasTree || r.Idx == ri.Idx {
+			continue
+		}
+		ids, err := r.StoredIds()
+		if err != nil {
+			continue
+		}
+		for _, id := range ids {
+			if _, ok := mi[id]; !ok {
+				rk = r
+				break
+			}
+		}
+		if rk != nil {
+			break
+		}
+	}
+	if rk == nil {
+		return
+	}
+	for _, limit := range []int{1, 300} {
+		cloneSeq++
+		cl, err := ri.Clone(filepath.Join(c.TmpDir, fmt.Sprintf("grow-%d", cloneSeq)))
+		if err != nil {
+			c.Inconclusive("clone responder: " + err.Error())
+			return
+		}
+		func() {
+			defer cl.CloseDetached()
+			iPath, _ := cl.SnapshotPath()
+			extra, err := loadBatches(rk, iPath, cl.Heads(), 1<<20)
+			if err != nil || len(extra) == 0 {
+				return
+			}
+			cl.Tree.Lock()
+			it, err := cl.Tree.ChangesAfterCommonSnapshotLoader(jPath, jHeads)
+			cl.Tree.Unlock()
+			if err != nil {
+				return
+			}
+			var batches []objecttree.IteratorBatch
+			pull := func(max int) bool {
+				for n := 0; n < max; n++ {
+					b, err := it.NextBatch(limit)
+					if err != nil {
+						c.Violation("loader-error:growing-responder", "NextBatch failed while the responder's tree grew", detail(limit, map[string]any{"err": err.Error()}))
+						return false
+					}
+					if len(b.Batch) == 0 {
+						return false
+					}
+					cp := objecttree.IteratorBatch{Root: b.Root, Heads: append([]string{}, b.Heads...), SnapshotPath: append([]string{}, b.SnapshotPath...)}
+					for _, ch := range b.Batch {
+						cp.Batch = append(cp.Batch, &treechangeproto.RawTreeChangeWithId{Id: ch.Id, RawChange: append([]byte{}, ch.RawChange...)})
+					}
+					batches = append(batches, cp)
+				}
+				return true
+			}
+			if !pull(1 + c.Rng.Intn(2)) {
+				return // nothing (more) to stream: no window to grow in
+			}
+			// the responder grows
+			grew := 0
+			for _, b := range extra {
+				resp := &response.Response{SpaceId: s.SpaceId, ObjectId: s.TreeId, Heads: b.Heads, SnapshotPath: b.SnapshotPath, Changes: b.Batch, Root: b.Root}
+				if err := s.ApplyResponse(cl, rk.PeerId, resp); err == nil {
+					grew += len(b.Batch)
+				}
+			}
+			pull(100000)
+			c.Eval(1)
+			c.Count("growing_responder.streams", 1)
+			c.Count("growing_responder.changes_arrived_mid_stream", int64(grew))
+			after, _ := cl.Stored()
+			all := idsOf(after) // parents are looked up in the grown state
+			sent := map[string]bool{}
+			for k, b := range batches {
+				for _, ch := range b.Batch {
+					sc, ok := all[ch.Id]
+					if !ok {
+						continue
+					}
+					for _, p := range sc.PrevIds {
+						if _, has := mj[p]; has {
+							continue
+						}
+						if !sent[p] {
+							c.Violation("child-before-parent:growing-responder", "while the responder's tree grew mid-stream, a change was streamed without (before) a parent the requester does not hold",
+								detail(limit, map[string]any{"change": ch.Id, "parent": p, "batch": k, "arrived_mid_stream": grew}))
+							return
+						}
+					}
+					sent[ch.Id] = true
+				}
+			}
+			for id := range mi {
+				if _, has := mj[id]; !has && !sent[id] {
+					c.Violation("incomplete-response:growing-responder", "a change the responder held at request time and the requester lacks was not streamed", detail(limit, map[string]any{"omitted": id}))
+					return
+				}
+			}
+			// apply to a clone of the requester
+			cloneSeq++
+			cj, err := rj.Clone(filepath.Join(c.TmpDir, fmt.Sprintf("growj-%d", cloneSeq)))
+			if err != nil {
+				return
+			}
+			defer cj.CloseDetached()
+			for k, b := range batches {
+				resp := &response.Response{SpaceId: s.SpaceId, ObjectId: s.TreeId, Heads: b.Heads, SnapshotPath: b.SnapshotPath, Changes: b.Batch, Root: b.Root}
+				if err := s.ApplyResponse(cj, ri.PeerId, resp); err != nil {
+					c.Violation("apply-error:growing-responder", "applying the batches of a stream whose responder grew mid-stream failed", detail(limit, map[string]any{"batch": k, "err": trimIds(err.Error())}))
+					return
+				}
+			}
+			have, _ := cj.StoredIds()
+			hs := map[string]bool{}
+			for _, id := range have {
+				hs[id] = true
+			}
+			for id := range sent {
+				if !hs[id] {
+					c.Violation("streamed-change-not-attached:growing-responder", "a streamed change is not part of the requester's tree after applying all batches in order", detail(limit, map[string]any{"change": id, "arrived_mid_stream": grew}))
+					return
+				}
+			}
+		}()
+	}
 }
